@@ -52,6 +52,8 @@ def gen_ops(rng, length: int, session_ops: bool) -> list[list]:
                 m = rng.choice(nl)
                 ops.append(rng.choice([['add', m, rng.choice([1, 2]), 1, 0, 1], ['del', m, 1, 1], ['resend', 0, 0]]))
             ops.append(['est', [], configured])
+        elif session_ops and x < 0.78:
+            ops.append(['eor'])
         else:
             ops.append(['tick'])
     return ops
@@ -112,7 +114,7 @@ def run_model(ops: list[list], cache_on: bool = True) -> dict:
     # drain: enough ticks; stop marker handled by reading until 'none'
     lines += ['rib tick'] * 64
     out = common.run_driver('drv_rib', lines)
-    outs = [out[i] for i in idx]
+    outs = [';'.join(sorted(out[i].split(';'))) if ops[j][0] == 'eor' else out[i] for j, i in enumerate(idx)]
     caches = [out[i + 1] for i in idx]
     pend = [out[i + 2] for i in idx]
     drain = []
@@ -147,6 +149,8 @@ def per_key(outs: list[str], ops: list[list]) -> dict:
             current.clear()
             epoch += 1
         if op[0] != 'tick':
+            continue
+        if o[:3] == 'EOR':
             continue
         if o[:1] in 'AW':
             current.append((f'{epoch}/n' + o.split(' ')[1].split(':')[0], o))
